@@ -137,7 +137,16 @@ func (qr *queryResult) mergeBatch(
 	var lastVersion int64
 	var lastSid common.SeriesID
 
-	for qr.Len() > 0 && b.RowCount() < mergeBatchMaxRows {
+	// A full batch still has to absorb the remaining competitors of its last
+	// (series, timestamp): they only replace that row or are skipped. Cutting
+	// the batch in front of them would emit the lower version as the first row
+	// of the next batch, i.e. two points for one (series, timestamp).
+	topDuplicatesLastRow := func() bool {
+		topBC := qr.data[0]
+		return b.RowCount() > 0 && topBC.bm.seriesID == lastSid &&
+			topBC.timestamps[topBC.idx] == b.Timestamps[len(b.Timestamps)-1]
+	}
+	for qr.Len() > 0 && (b.RowCount() < mergeBatchMaxRows || topDuplicatesLastRow()) {
 		topBC := qr.data[0]
 		// Series boundary: stop and let the caller call again for the next series.
 		if lastSid != 0 && topBC.bm.seriesID != lastSid {
